@@ -497,6 +497,15 @@ def check(program: Program, run: Run) -> None:
                     if raw:
                         problems.append(("enum-format", "is formatted as the Enum member itself on some path (Enum.__format__ prints the member's name, not its value)"))
                 problems = list(dict.fromkeys(problems))
+            if kname in ("int", "float", "Decimal"):
+                # a number is written as its own str(): no method of the value, no format specification, no arithmetic in
+                # between (normalize() / format(v, "f") / round() round to a context precision or drop the exponent form)
+                raw_only = isinstance(v, Str) and all(
+                    isinstance(p_, Lit) or (isinstance(p_, Hole) and isinstance(p_.value, Sym) and p_.value.kind == "typed")
+                    for fl in paths(v, limit=64, opaque_leaf=True) for p_ in fl)
+                if not raw_only:
+                    problems.append(("number-transformed", "is not written as its plain str(): the value passes through a conversion before it is printed, "
+                                                           "which can round it or change its form (Decimal.normalize() rounds to the context precision of 28 digits)"))
             ok = not problems
             run.ob("C05/R6 value kind x wrapper: one literal, quote doubled, dialect's backslash rule applied", cell, ok,
                    detail=f"{txt[:90]} | replacements {sorted(ps)}", where=c.resolve("get_value_sql").loc())
